@@ -9,6 +9,7 @@ Observation is by effects, not by line numbers, so it also works on a mutated dr
     acq   the DLock was acquired by the logical thread            <-> Acquire(t)
     read  the scripted clock was read and returned v microseconds  <-> ReadClock(t, v)
     set   `self.last = x` was executed (a property on a subclass)  <-> Compute(t), last' = x
+    warn  log.warning was called (cassandra.timestamps.log replaced) <-> the w flag of Compute(t)
     rel   the DLock is released                                    <-> Release(t)
     ret   the call returned x to its caller                        (checked against ret[t])
 
@@ -83,8 +84,25 @@ class Clock:
         return v / 1e6
 
 
+class FakeLog:
+    """Stands in for the module logger of cassandra.timestamps: counts the clock-skew warnings."""
+
+    def __init__(self, harness):
+        self.h = harness
+
+    def warning(self, *a, **kw):
+        self.h.warnings += 1
+        self.h.log("warn")
+
+    def __getattr__(self, name):             # debug / info / ...: ignored
+        return lambda *a, **kw: None
+
+
+DEFAULT_CONF = {"warn": True, "eager": False}
+
+
 class TsHarness:
-    def __init__(self, n, k, m, null_lock=False):
+    def __init__(self, n, k, m, null_lock=False, conf=None):
         self.ts = repo_import("cassandra.timestamps")
         for v in range(0, m + 1):
             if int(v / 1e6 * 1e6) != v:
@@ -93,6 +111,8 @@ class TsHarness:
         self.events = []
         self.rets = {t: [] for t in range(1, n + 1)}
         self.errors = {}
+        self.warnings = 0
+        self.conf = conf = dict(conf or DEFAULT_CONF)
         h = self
 
         class Probe(self.ts.MonotonicTimestampGenerator):
@@ -105,11 +125,14 @@ class TsHarness:
             last = property(_get, _set)
 
         self.sched = DetSched()
-        self.gen = Probe()
+        # the configuration only governs logging: warn_on_drift, and threshold / interval 0 ("eager") or the defaults
+        self.gen = Probe(warn_on_drift=bool(conf["warn"]), warning_threshold=0 if conf["eager"] else 1,
+                         warning_interval=0 if conf["eager"] else 1)
         self.gen.lock = NullLock() if null_lock else LoggingLock("ts", self)
         self.clock = Clock(self)
-        self.saved_time = self.ts.time
+        self.saved_time, self.saved_log = self.ts.time, self.ts.log
         self.ts.time = self.clock
+        self.ts.log = FakeLog(self)
         self.events.clear()
         base = self.ts.MonotonicTimestampGenerator
         self.sched.trace_lines(base.__call__, base._next_timestamp)
@@ -118,7 +141,7 @@ class TsHarness:
 
     def close(self):
         self.sched.close()
-        self.ts.time = self.saved_time
+        self.ts.time, self.ts.log = self.saved_time, self.saved_log
 
     def _body(self, t):
         for _ in range(self.k):
@@ -172,7 +195,7 @@ class TsHarness:
         lock = self.gen.lock
         owner = getattr(lock, "owner", None)
         return {"lock": int(owner.name) if owner is not None else 0,
-                "last": self.gen.__dict__["_probe_last"],
+                "last": self.gen.__dict__["_probe_last"], "warnings": self.warnings,
                 "rets": {t: list(v) for t, v in self.rets.items()}}
 
 
@@ -180,7 +203,7 @@ def spec_view(st):
     rets = {t: [] for t in range(1, len(st["pc"]) + 1)}
     for h in st["hist"]:
         rets[h["t"]].append(h["x"])
-    return {"lock": st["lock"], "last": st["last"], "rets": rets}
+    return {"lock": st["lock"], "last": st["last"], "warnings": st["warnings"], "rets": rets}
 
 
 def _seq(fn):
@@ -191,7 +214,8 @@ def _seq(fn):
 def replay(consts, states, corrupt=None):
     """Replay one behaviour (list of spec states, first = initial). Returns None or a divergence dict.
     Also returns the number of blocking checks made: (divergence, blocked_checks)."""
-    h = TsHarness(consts["N"], consts["K"], consts["M"])
+    c0 = states[0]["conf"]
+    h = TsHarness(consts["N"], consts["K"], consts["M"], conf={"warn": bool(c0["warn"]), "eager": bool(c0["eager"])})
     blocked_checks = 0
     step_no = 0
     try:
@@ -214,7 +238,7 @@ def replay(consts, states, corrupt=None):
                     expect = [("read", t, v)]
                 elif name == "Compute":
                     new = h.until_event(t, "set")
-                    expect = [("set", t, v)]
+                    expect = [("warn", t, None)] * a.get("w", 0) + [("set", t, v)]
                 elif name == "Release":
                     new = h.until_event(t, "rel")
                     new = new + h.to_lock(t)
@@ -257,18 +281,25 @@ def replay(consts, states, corrupt=None):
         h.close()
 
 
-def record(consts, rng, null_lock=False):
-    """Run a seeded random line-level schedule; returns (trace events for Trace_Timestamps, returned values)."""
-    h = TsHarness(consts["N"], consts["K"], consts["M"], null_lock=null_lock)
+def record(consts, rng, null_lock=False, conf=None):
+    """Run a seeded random line-level schedule; returns (trace events for Trace_Timestamps, returned values).
+    The first event carries the generator's configuration."""
+    h = TsHarness(consts["N"], consts["K"], consts["M"], null_lock=null_lock, conf=conf)
     h.clock.rng, h.clock.M = rng, consts["M"]
     try:
         try:
             h.sched.run_random(rng)
         except Exception as ex:                       # noqa - misbehaving code under test / deadlock
             h.events.append(("raise", 0, type(ex).__name__))
-        trace = []
+        trace = [{"e": "conf", "warn": bool(h.conf["warn"]), "eager": bool(h.conf["eager"]), "t": 0, "v": 0, "x": 0, "w": 0}]
+        pending_warn = {}
         for kind, t, val in h.events:
-            e = {"e": kind, "t": t, "v": 0, "x": 0}
+            if kind == "warn":                        # folded into the w field of the thread's next "set"
+                pending_warn[t] = pending_warn.get(t, 0) + 1
+                continue
+            e = {"e": kind, "t": t, "v": 0, "x": 0, "w": 0}
+            if kind == "set":
+                e["w"] = pending_warn.pop(t, 0)
             if kind == "read":
                 e["v"] = val
             elif kind in ("set", "ret"):
@@ -276,6 +307,8 @@ def record(consts, rng, null_lock=False):
             elif kind == "raise":
                 e["cls"] = val
             trace.append(e)
+        if pending_warn:
+            trace.append({"e": "stray-warning", "t": 0, "v": 0, "x": 0, "w": 1})
         return trace, [x for t in sorted(h.rets) for x in h.rets[t]]
     finally:
         h.close()
